@@ -33,12 +33,13 @@ VARIABLES tr, l,
           drained,  \* the final drain event was consumed
           stops,    \* sequence of [c, step]: StopReadCollection calls
           addparts, \* sequence of [c, p, registered, nreads, step]: AddPartition calls with the shards registered at that instant
+          regd,     \* <<registered, ok>>: source vchannels with a live MQ registration; ok = none was registered while registered
           starts,   \* sequence of [c, step]: StartReadCollection calls
           cfeeds,   \* feeds refused because the stream had been closed: [s, nreads, nevs, step]
           fl,       \* downstream channel q -> highest checkpoint (seek) time among the collections started so far with a shard on q
           kfused
 
-vars == <<tr, l, outs, reads, sreads, sdrops, srcmsg, cnt, pend, evs, drained, stops, addparts, starts, cfeeds, fl, kfused>>
+vars == <<tr, l, outs, reads, sreads, sdrops, srcmsg, cnt, pend, evs, drained, stops, addparts, regd, starts, cfeeds, fl, kfused>>
 
 Params == Traces[tr].params
 Floor == IF "floor" \in DOMAIN Params THEN Params.floor ELSE 0
@@ -47,7 +48,7 @@ TaskID == "task1"
 
 TInit == /\ tr \in 1..Len(Traces) /\ l = 1
          /\ outs = <<>> /\ reads = <<>> /\ sreads = <<>> /\ sdrops = <<>> /\ srcmsg = <<>> /\ cnt = 0 /\ pend = <<>> /\ evs = <<>>
-         /\ drained = FALSE /\ stops = <<>> /\ addparts = <<>> /\ starts = <<>> /\ cfeeds = <<>> /\ fl = <<>> /\ kfused = {}
+         /\ drained = FALSE /\ stops = <<>> /\ addparts = <<>> /\ starts = <<>> /\ regd = <<{}, TRUE>> /\ cfeeds = <<>> /\ fl = <<>> /\ kfused = {}
 
 IsTick(m) == m.k = "tick"
 NonTick(p) == SelectSeq(p.msgs, LAMBDA m : ~IsTick(m))
@@ -274,6 +275,17 @@ Delivered ==
           /\ \A pn \in DOMAIN c.parts :
                 ((NoError \/ FullAtAddPart(c, pn)) /\ (\A s \in ShardsOfC(c) : HasReadDrop(s, pn, Len(reads))) /\ NDrops("DropCollection", c.name, "") = 0)
                    => NDrops("DropPartition", c.name, pn) = 1
+\* C13 at the channel manager ("being notified twice about the same object has no further effect"): a collection that is
+\* announced again - also while its first announcement is still being processed - does not get a second stream: a source
+\* vchannel is never registered at the MQ while it holds a registration
+RECURSIVE FoldRegs(_, _, _)
+FoldRegs(rs, i, st) ==
+    IF i > Len(rs) THEN st
+    ELSE IF rs[i].op = "register" THEN FoldRegs(rs, i + 1, <<st[1] \cup {rs[i].v}, st[2] /\ rs[i].v \notin st[1]>>)
+    ELSE IF rs[i].op = "deregister" THEN FoldRegs(rs, i + 1, <<st[1] \ {rs[i].v}, st[2]>>)
+    ELSE FoldRegs(rs, i + 1, st)
+C13Inv == regd[2]
+
 C04Inv == /\ DropOnce
           /\ \A i \in 1..Len(evs) : (IsDropC(evs[i]) \/ IsDropP(evs[i])) => DropNamed(evs[i]) /\ AfterAllShards(evs[i], FALSE)
           /\ \A i \in 1..Len(outs) : SilentAfterDrop(outs[i])
@@ -281,7 +293,8 @@ C04Inv == /\ DropOnce
           /\ Delivered
 
 (* ------------------------------ step ------------------------------------- *)
-Inv == /\ (P("C01") => C01Inv)
+Inv == /\ (Prop = "C13" => C13Inv)
+       /\ (P("C01") => C01Inv)
        /\ (P("C02") => C02Inv)
        /\ (P("C03") => C03Inv)
        /\ (P("C04") => C04Inv)
@@ -326,6 +339,7 @@ TStep ==
        /\ evs' = evs \o [i \in 1..Len(e.evs) |-> e.evs[i] @@ [at |-> Len(outs), nreads |-> Len(reads), step |-> l]]
        /\ stops' = IF e.op = "stop" THEN Append(stops, [c |-> e.c, step |-> l]) ELSE stops
        /\ addparts' = IF e.op = "addpart" /\ ~e.err THEN Append(addparts, [c |-> e.c, p |-> e.p, registered |-> e.registered, nreads |-> Len(reads), step |-> l]) ELSE addparts
+       /\ regd' = FoldRegs(e.regs, 1, regd)
        /\ starts' = IF e.op = "start" THEN Append(starts, [c |-> e.c, step |-> l, nseek |-> IF "seeks" \in DOMAIN e THEN Len(e.seeks) ELSE 0,
                                                                 seeks |-> IF "seeks" \in DOMAIN e THEN e.seeks ELSE <<>>]) ELSE starts
        /\ drained' = (drained \/ e.op = "drain")
